@@ -75,7 +75,10 @@ TTbSearch ==
                      <<"dtm", n, "hmc", h, Tr[l].line>>)
          /\ Chk("BestMoveLegal", best \in L, Tr[l].best)
          /\ (best \in L /\ v > 0 /\ fits) => Chk("BestMoveKeepsShortestMate", \A x \in bestVals : Back(x) = v, <<bestVals, v>>)
-         /\ (best \in L /\ v = 0) => Chk("BestMoveKeepsDraw", \A x \in bestVals : Back(x) = 0, <<bestVals>>)
+         /\ (best \in L /\ v = 0) =>
+               \* a successor that is lost by DTM is only a real loss if the opponent's mate completes before the 50-move limit
+               LET h2 == IF IsZeroing(p, best) THEN 0 ELSE h + 1 IN
+               Chk("BestMoveKeepsDraw", \A x \in bestVals : Back(x) = 0 \/ (Back(x) < 0 /\ h2 + 2 * DtmMoves(x) - 1 > 100), <<bestVals, h>>)
 
 TInit == l = 1 /\ genOk = TRUE /\ clsBoard = [pc \in 1..12 |-> 0]
 TNext == TMeta \/ TTbGen \/ TTbAgain \/ TRow \/ TTbSearch
